@@ -170,6 +170,10 @@ def corpus():
     bad_g = b"--- a/keep/g\n+++ b/keep/g\n@@ -1 +1 @@\n-nope\n+y\n"
     for order in ((bad_f, miss, bad_g), (miss, bad_f, bad_g), (bad_f, bad_g, miss)):
         out.append(mk({b"f": F(body), b"keep/g": F(b"x\n")}, b"".join(order)))
+    # zero-context hunks whose two sides sit at different lines: a failing pure deletion after a hunk that added lines,
+    # and a failing pure insertion after a hunk that removed lines (line numbers of the empty side must survive)
+    out.append(mk({b"f": F(body)}, b"--- a/f\n+++ b/f\n@@ -1,0 +2,2 @@\n+n1\n+n2\n@@ -5,2 +7,0 @@\n-X\n-Y\n"))
+    out.append(mk({b"f": F(body)}, b"--- a/f\n+++ b/f\n@@ -2,2 +1,0 @@\n-b\n-c\n@@ -6,0 +5,2 @@\n+n1\n+n2\n@@ -7 +6 @@\n-NOPE\n+G\n"))
     # reversed entry, -p0, quoted name
     out.append(mk({b"f": F(body)}, b"--- f\n+++ f\n@@ -1,2 +1,2 @@\n a\n-X\n+B\n", b"p.patch -p0 -R\n"))
     for w, c in list(out):
